@@ -490,6 +490,16 @@ func httpHandlers(w *World) []*ssa.Function {
 		for _, c := range callsIn(f) {
 			if isCallToPkgFunc(c, "net/http", "HandleFunc") && len(c.Common().Args) == 2 {
 				fromValue(c.Common().Args[1])
+				// handlers taken from a table of routes
+				var hv ssa.Value = c.Common().Args[1]
+				if cc, isCall := hv.(*ssa.Call); isCall && len(cc.Common().Args) == 1 {
+					hv = cc.Common().Args[0]
+				}
+				if _, hs := tableColumn(hv); hs != nil {
+					for _, h := range hs {
+						fromValue(h)
+					}
+				}
 			}
 		}
 	}
